@@ -23,7 +23,9 @@ N == Len(Rec)
 VARIABLES l, encs, fets, viol, known, drift, stats
 vars == <<l, encs, fets, viol, known, drift, stats>>
 
-Known == {"Config", "Probe", "Skipped", "Encrypt", "Fetch"}
+\* RootSweep: the driver's search for inputs whose serialised first-level data map is MAX-1 / MAX / MAX+1 bytes (what it
+\* found; the inputs themselves follow as Encrypt / Fetch lines)
+Known == {"Config", "Probe", "RootSweep", "Skipped", "Encrypt", "Fetch"}
 
 EncObs(e) == [len |-> e.len, min |-> e.min, max |-> e.max, res |-> e.res, n |-> e.n, rootsz |-> e.rootsz,
               maxenc |-> e.maxenc, badaddr |-> e.badaddr, dm |-> e.dm, set |-> e.set]
